@@ -602,11 +602,17 @@ func (c *Context) Cbrt(d, x *Decimal) (Condition, error) {
 	for z.Cmp(decimalOneEighth) < 0 {
 		exp8--
 		ed.Mul(&z, &z, decimalEight)
+		if err := ed.Err(); err != nil {
+			return 0, err
+		}
 	}
 
 	for z.Cmp(decimalOne) > 0 {
 		exp8++
 		ed.Mul(&z, &z, decimalOneEighth)
+		if err := ed.Err(); err != nil {
+			return 0, err
+		}
 	}
 
 	// Use this polynomial to approximate the cube root between 0.125 and 1.
